@@ -96,6 +96,11 @@ pub struct Case {
     /// statements are served from the router's cache when it has them
     #[serde(default)]
     pub query_cache: bool,
+    /// statements enter through the router's async entry point
+    /// (`execute_parsed_async`, polled to completion on the run thread) instead
+    /// of `execute` / `execute_parsed`
+    #[serde(default)]
+    pub async_entry: bool,
     pub steps: Vec<Step>,
 }
 
@@ -251,7 +256,9 @@ impl<'a> Sys<'a> {
         // statements use the statement parser's grammar directly — `execute`
         // would route them to the router's legacy mini-language instead, and
         // it does not know the CHECKPOINTS keyword at all
-        let r = if q.starts_with("CHECKPOINT '") || q == "CHECKPOINT" || q.starts_with("ROLLBACK TO") {
+        let r = if self.case.async_entry {
+            crate::net::now_or_never(self.router.execute_parsed_async(q))
+        } else if q.starts_with("CHECKPOINT '") || q == "CHECKPOINT" || q.starts_with("ROLLBACK TO") {
             self.router.execute(q)
         } else {
             self.router.execute_parsed(q)
@@ -1154,13 +1161,17 @@ impl Scenario for C08 {
         }
         // the router's optional query cache (init_cache) is part of the case
         let query_cache = GENERATE_QUERY_CACHE && rng.chance(1, 6);
-        Case { max_checkpoints, auto_checkpoint, sweep, blob_max_artifact, blob_chunk_size, query_cache, steps }
+        let async_entry = rng.chance(1, 5);
+        Case { max_checkpoints, auto_checkpoint, sweep, blob_max_artifact, blob_chunk_size, query_cache, async_entry, steps }
     }
 
     fn run(&self, case: &Case, ctx: &Arc<RunCtx>) -> RunOut {
         let mut out = RunOut::default();
         if case.query_cache {
             ctx.probe("router_query_cache_on");
+        }
+        if case.async_entry {
+            ctx.probe("statements_through_async_entry_point");
         }
         let router = match build_router(case) {
             Ok(r) => r,
@@ -1289,6 +1300,11 @@ impl Scenario for C08 {
         if case.query_cache {
             let mut c = case.clone();
             c.query_cache = false;
+            v.push(c);
+        }
+        if case.async_entry {
+            let mut c = case.clone();
+            c.async_entry = false;
             v.push(c);
         }
         if let Some(n) = case.blob_max_artifact {
